@@ -284,10 +284,17 @@ def tty_query_failures():
     out = []
     for vmin, vtime, mode in ((None, None, "cooked"), (0, 0, "cooked"), (3, 2, "cooked"), (0, 1, "cooked"), (1, 0, "char-at-a-time"), (1, 0, "noecho")):
         for delay in (0.0, 0.15):
-            for typed in (b"", b"ab", b"a\rb"):
+            for typed in (b"", b"ab", b"a\rb", b"READ-AHEAD"):
                 if typed == b"a\rb" and mode == "cooked" and vmin is not None:
                     continue
-                case = dict(vmin=vmin, vtime=vtime, tty=mode, delay=delay, typed_ahead=typed.decode())
+                # READ-AHEAD: the program reads ONE key through the text stream while three are pending (the stream object reads ahead and
+                # keeps the other two in its own buffer); they are input that arrived ahead of the next report like any other
+                read_ahead = typed == b"READ-AHEAD"
+                if read_ahead:
+                    if delay or vmin not in (None, 0):
+                        continue
+                    typed = b"\xe9"
+                case = dict(vmin=vmin, vtime=vtime, tty=mode, delay=delay, typed_ahead=typed.decode("latin-1"), read_ahead=read_ahead)
                 m, sl = os.openpty()
                 try:
                     a = termios.tcgetattr(sl)
@@ -327,10 +334,14 @@ def tty_query_failures():
                     outs = os.fdopen(sl, "w", closefd=False, encoding="latin-1", newline="")
                     res = {}
 
-                    def body(res=res, got=got, ins=ins, outs=outs):
+                    def body(res=res, got=got, ins=ins, outs=outs, m=m, read_ahead=read_ahead):
                         try:
                             w = CursorAwareWindow(out_stream=outs, in_stream=ins, extra_bytes_callback=got.append, hide_cursor=False)
                             with w:
+                                if read_ahead:
+                                    os.write(m, b"abc")
+                                    time.sleep(0.05)
+                                    res["key"] = ins.read(1)
                                 res["second"] = w.get_cursor_position()
                                 res["top"] = w.top_usable_row
                         except BaseException as e:      # noqa: BLE001
@@ -348,8 +359,9 @@ def tty_query_failures():
                     elif res.get("second") != (5, 1) or res.get("top") != 4:
                         out.append([case, f"entering saw row {res.get('top')} (terminal reported row 5 -> 4), the second query returned {res.get('second')} (terminal "
                                           "reported 6;2 -> (5, 1))"])
-                    elif b"".join(got) != typed:
-                        out.append([case, f"the callback got {b''.join(got)!r}, typed ahead of the report: {typed!r}"])
+                    elif b"".join(got) != (b"bc" if read_ahead else b"") + typed:
+                        out.append([case, f"the callback got {b''.join(got)!r}, ahead of the report were {(b'bc' if read_ahead else b'') + typed!r}"
+                                          + (" (b'bc' waiting in the text stream's own buffer after the program read one key of three)" if read_ahead else "")])
                 finally:
                     for fd in (m, sl):
                         try:
